@@ -76,36 +76,54 @@ def match_known(known, prop, h, chk):
     return None
 
 
+# quick tier: CPU budget in estimated core-seconds (gen.py attaches a static cost estimate to every generated
+# harness; hand-written ones default to 30) - the sample is stratified by (module, kind) and chosen with VERIF_SEED
+QUICK_BUDGET = {"C01": 1500, "C04": 1500, "C05": 1500, "C09": 1600, "C10": 1600, "C12": 2000, "C13": 2000, "C14": 1500,
+                "C15": 1500, "C16": 3000, "C17": 2500, "C20": 900, "C02": 3000}
+QUICK_MAX_COST = 120
+
+
 def select(meta, prop, tier, seed, known):
     hs = [h for h in meta["harnesses"] if h["property"] == prop]
-    if tier == "thorough" or len(hs) <= QUICK_N.get(prop, 10) or os.environ.get("VERIF_ALL"):
+    if tier == "thorough" or os.environ.get("VERIF_ALL"):
         return hs, len(hs)
     rnd = random.Random(seed * 1000003 + int(prop[1:]))
-    # stratify by (module, kind)
+    budget = QUICK_BUDGET.get(prop, 1500)
+    cost = lambda h: h.get("cost", 30)
     strata = {}
     for h in hs:
+        if cost(h) > QUICK_MAX_COST:
+            continue
         strata.setdefault((h.get("module", ""), h.get("kind", "")), []).append(h)
     for v in strata.values():
         rnd.shuffle(v)
     keys = sorted(strata.keys())
     rnd.shuffle(keys)
-    picked = []
-    n = QUICK_N.get(prop, 10)
+    picked, total = [], 0.0
     # harnesses attached to known findings first (they must keep printing KNOWN-FINDING)
     kf = [k for k in known.get("findings", []) if k["property"] == prop]
     for h in hs:
         for k in kf:
             if ("instruction" in k and k["instruction"] == h.get("instruction")) or ("harness" in k and h["harness"].endswith(k["harness"])):
-                if h not in picked and k.get("quick", True):
+                if h not in picked and cost(h) <= QUICK_MAX_COST:
                     picked.append(h)
+                    total += cost(h)
     i = 0
-    while len(picked) < n and any(strata.values()):
+    misses = 0
+    while any(strata.values()) and misses < 3 * len(keys):
         k = keys[i % len(keys)]
-        if strata[k]:
-            h = strata[k].pop()
-            if h not in picked:
-                picked.append(h)
         i += 1
+        if not strata[k]:
+            misses += 1
+            continue
+        h = strata[k].pop()
+        if h in picked:
+            continue
+        if total + cost(h) > budget:
+            misses += 1
+            continue
+        picked.append(h)
+        total += cost(h)
     return picked, len(hs)
 
 
@@ -206,7 +224,26 @@ def native_replay(crate, harness, tests, log, profile_release=False):
     res = {}
     for t in tests:
         m = re.search(r"test .*%s \.\.\. (\w+)" % re.escape(t["test_name"]), out)
-        res[t["test_name"]] = None if not m else (m.group(1) == "FAILED")
+        if not m:
+            res[t["test_name"]] = None
+            continue
+        if m.group(1) != "FAILED":
+            res[t["test_name"]] = False
+            continue
+        # the native run panicked: it only counts as a reproduction when it is the SAME failure
+        pm = re.search(r"thread '[^']*%s' \(\d+\) panicked at ([^\n]*):\n([^\n]*)" % re.escape(t["test_name"]), out)
+        loc, msg = (pm.group(1), pm.group(2)) if pm else ("", "")
+        want = t["check"].strip().strip('"')
+        if want and want in msg:
+            res[t["test_name"]] = True
+        elif not t["check"].strip().startswith('"') and not loc.startswith("src/"):
+            # a Rust-level panic (overflow, bounds, unwrap, division) inside pushr / std / the shims
+            res[t["test_name"]] = True
+        elif "unwinding assertion" in t["check"] and not loc.startswith("src/stubs.rs"):
+            res[t["test_name"]] = True
+        else:
+            res[t["test_name"]] = False
+        t["native_panic"] = "%s: %s" % (loc, msg)
     return res, out
 
 
@@ -241,10 +278,13 @@ def main():
     ap.add_argument("prop")
     ap.add_argument("--tier", default=os.environ.get("VERIF_TIER", "quick"))
     ap.add_argument("--replay")
-    ap.add_argument("--jobs", type=int, default=int(os.environ.get("VERIF_JOBS", "14")))
+    ap.add_argument("--jobs", type=int, default=int(os.environ.get("VERIF_JOBS", "0")))
     ap.add_argument("--only", help="substring filter on harness names (development)")
     a = ap.parse_args()
     prop, tier = a.prop, a.tier
+    if not a.jobs:
+        # memory-bound harness families get fewer parallel CBMC processes (62 GB, no swap)
+        a.jobs = {"C20": 6}.get(prop, 14)
     seed = int(os.environ.get("VERIF_SEED", "1"))
     t0 = time.time()
     run_dir = os.path.join(WORK, "run", "%s_%s" % (prop, tier))
@@ -266,7 +306,8 @@ def main():
     known = load_known()
     picked, total = select(meta, prop, tier, seed, known)
     if a.only:
-        picked = [h for h in picked if a.only in h["harness"]]
+        pats = [x for x in a.only.split(",") if x]
+        picked = [h for h in picked if any(x in h["harness"] for x in pats)]
     if not picked:
         print("INCONCLUSIVE: no harness for %s" % prop)
         return 2
@@ -283,7 +324,7 @@ def main():
         return 2
     res, tools = parse_results(out_json)
 
-    inconclusive, known_hits, candidates, passed, solver_only = [], [], [], [], []
+    inconclusive, known_hits, candidates, passed, solver_only, unreplayed = [], [], [], [], [], []
     solver_s = symex_s = 0.0
     n_checks = 0
     functions = set()
@@ -341,7 +382,27 @@ def main():
     violations = []
     replay_dir = os.path.join(WORK, "replay", prop)
     os.makedirs(replay_dir, exist_ok=True)
+    MAX_REPLAY = 3
+    to_replay = []   # (harness, checks, wanted tests)
     for hn, checks in candidates:
+        if byname[hn].get("replay") == "solver-only":
+            # the assertions of this harness are about a stand-in for pushr code (step / clock / generator
+            # recorder): there is nothing to run natively. Cross-check the verdict with a second SAT back end.
+            out2 = os.path.join(run_dir, "kani_second.json")
+            run_kani(crate, target, [hn], 1, timeout_s, log, out2, extra=["--solver", "kissat"])
+            again = {}
+            if os.path.exists(out2):
+                again, _ = parse_results(out2)
+            r2 = again.get(hn)
+            if r2 and r2["failed"]:
+                for c in checks:
+                    solver_only.append((hn, c["description"]))
+            else:
+                inconclusive.append((hn, "counterexample not confirmed by the second SAT back end"))
+            continue
+        if len(to_replay) >= MAX_REPLAY:
+            unreplayed.append((hn, "; ".join(c["description"] for c in checks)))
+            continue
         tests = concrete_playback(crate, target, hn, log, timeout_s)
         wanted = [t for t in tests if any(c["description"].strip('"') in t["check"] or t["check"] in c["description"] for c in checks)]
         if not wanted:
@@ -349,29 +410,57 @@ def main():
         if not wanted:
             inconclusive.append((hn, "counterexample without concrete values"))
             continue
-        rep_dev, _ = native_replay(crate, hn, wanted, log, False)
-        rep_rel, _ = native_replay(crate, hn, wanted, log, True)
-        any_rep = False
-        for t in wanted:
-            dev, rel = rep_dev.get(t["test_name"]), rep_rel.get(t["test_name"])
-            if "timeout" in (dev, rel) and prop != "C15":
-                dev = None if dev == "timeout" else dev
-                rel = None if rel == "timeout" else rel
-            if dev or rel:
-                any_rep = True
-                path = os.path.join(replay_dir, "%s__%s.json" % (hn.split("::")[-1], hashlib.sha1(t["check"].encode()).hexdigest()[:8]))
-                json.dump({"property": prop, "harness": hn, "instruction": byname[hn].get("instruction"), "check": t["check"],
-                           "reproduced": {"dev": dev, "release": rel}, "test_name": t["test_name"], "test_source": t["source"],
-                           "tier": tier, "seed": seed}, open(path, "w"), indent=1)
-                violations.append((hn, t["check"], path, dev, rel))
-        if not any_rep:
-            inconclusive.append((hn, "counterexample did not reproduce natively (encoding or stub suspect): %s" % "; ".join(c["description"] for c in checks)))
+        to_replay.append((hn, checks, wanted))
+    if to_replay:
+        # one native build per profile for all generated tests (modules differ: group by module)
+        bymod = {}
+        for hn, checks, wanted in to_replay:
+            bymod.setdefault(hn.rsplit("::", 1)[0], []).extend(wanted)
+        rep_dev, rep_rel = {}, {}
+        for mod, tests in bymod.items():
+            d, _ = native_replay(crate, mod + "::x", tests, log, False)
+            r, _ = native_replay(crate, mod + "::x", tests, log, True)
+            rep_dev.update(d)
+            rep_rel.update(r)
+        for hn, checks, wanted in to_replay:
+            any_rep = False
+            for t in wanted:
+                dev, rel = rep_dev.get(t["test_name"]), rep_rel.get(t["test_name"])
+                if "timeout" in (dev, rel) and prop != "C15":
+                    dev = None if dev == "timeout" else dev
+                    rel = None if rel == "timeout" else rel
+                if dev or rel:
+                    any_rep = True
+                    path = os.path.join(replay_dir, "%s__%s.json" % (hn.split("::")[-1], hashlib.sha1(t["check"].encode()).hexdigest()[:8]))
+                    json.dump({"property": prop, "harness": hn, "instruction": byname[hn].get("instruction"), "check": t["check"],
+                               "native_panic": t.get("native_panic"),
+                               "reproduced": {"dev": dev, "release": rel}, "test_name": t["test_name"], "test_source": t["source"],
+                               "tier": tier, "seed": seed}, open(path, "w"), indent=1)
+                    violations.append((hn, t["check"], path, dev, rel))
+            if not any_rep and prop == "C15" and all("unwinding assertion" in c["description"] for c in checks):
+                # A loop that exceeds the bound only shows natively as time. Escalate the bound: if the loop
+                # still does not terminate within 64 iterations on a state of <= 9 elements, its trip count is
+                # driven by operand magnitude (solver-only verdict; replay re-runs the query).
+                out3 = os.path.join(run_dir, "kani_unwind64.json")
+                run_kani(crate, target, [hn], 1, timeout_s, log, out3, extra=["--unwind", "64"])
+                again = {}
+                if os.path.exists(out3):
+                    again, _ = parse_results(out3)
+                r3 = again.get(hn)
+                if r3 and any("unwinding assertion" in c["description"] for c in r3["failed"]):
+                    solver_only.append((hn, "a loop runs more than 64 iterations on a state of <= 9 elements (trip count set by operand magnitude): " + checks[0].get("function", "")))
+                    any_rep = True
+            if not any_rep:
+                inconclusive.append((hn, "counterexample did not reproduce natively (encoding or stub suspect): %s" % "; ".join(c["description"] for c in checks)))
+    if unreplayed and not violations:
+        for hn, why in unreplayed:
+            inconclusive.append((hn, "counterexample not replayed (replay limit): " + why))
 
     for hn, desc in solver_only:
         path = os.path.join(replay_dir, "%s__%s.json" % (hn.split("::")[-1], hashlib.sha1(desc.encode()).hexdigest()[:8]))
         json.dump({"property": prop, "harness": hn, "check": desc, "solver_only": True,
-                   "note": "existential obligation: the solver proved that NO execution (no sequence of draws) satisfies the cover; "
-                           "there is no concrete witness to run natively - replay re-runs the solver query",
+                   "note": "no native witness exists for this obligation (existential cover proved unsatisfiable, or an assertion about a "
+                           "nondeterministic stand-in for step/clock/generator): replay re-runs the solver query",
                    "tier": tier, "seed": seed}, open(path, "w"), indent=1)
         violations.append((hn, desc, path, "solver-only", "solver-only"))
 
@@ -400,6 +489,7 @@ def main():
         "inconclusive": [{"harness": h, "why": w} for h, w in inconclusive],
         "known_findings_hit": sorted({"%s: %s" % (k["id"], c["description"]) for _, c, k in known_hits}),
         "violations": [{"harness": v[0], "check": v[1], "replay": v[2], "dev": v[3], "release": v[4]} for v in violations],
+        "counterexamples_not_replayed": [{"harness": h, "checks": w} for h, w in unreplayed],
         "tools": tools,
         "registry_entries": meta["registry_entries"],
         "exhaustive": False,
@@ -434,8 +524,8 @@ def replay_file(path, prop, run_dir, crate, log, tier, seed):
         run_kani(crate, os.path.join(run_dir, "target"), [rp["harness"]], 1, TIMEOUT[tier], log, out_json)
         res, _ = parse_results(out_json)
         r = res.get(rp["harness"])
-        bad = r and [c for c in r["covers"] if "OBLIGATION:" in c[0] and c[1] not in ("Satisfied", "Covered")]
-        print("replay %s: obligation %s" % (rp["harness"], "still unsatisfiable" if bad else "satisfiable"))
+        bad = r and ([c for c in r["covers"] if "OBLIGATION:" in c[0] and c[1] not in ("Satisfied", "Covered")] or r["failed"])
+        print("replay %s: %s" % (rp["harness"], "still violated" if bad else "holds"))
         if bad:
             print("VIOLATION property=%s replay=%s" % (prop, path))
             return 1
